@@ -1,5 +1,5 @@
 SPECIFICATION Spec
-CONSTANT MaxPreds = 2
+CONSTANT MaxPreds = 4
 INVARIANT SignRecover
 INVARIANT TamperDetected
 INVARIANT OtherSigner
